@@ -324,16 +324,9 @@ def wrap_with_field(node: CSSValue, config: Config, state: WrapState=None):
             q = '\'' if v.quote == 'single' else '"'
             value.append(tokens.Field(''.join((q, v.value, q)), state.inc()))
         elif isinstance(v, FunctionCall):
-            value.append(tokens.Field(v.name, state.inc()))
-            value.append(tokens.Literal('('))
-
-            max_i = len(v.arguments) - 1
-            for i, arg in enumerate(v.arguments):
-                value += wrap_with_field(arg, config, state).value
-                if i != max_i:
-                    value.append(tokens.Literal(', '))
-
-            value.append(tokens.Literal(')'))
+            # Keep the call as a call: the formatter writes its name, parentheses
+            # and argument delimiters; only the argument tokens become fields
+            value.append(FunctionCall(v.name, [wrap_with_field(arg, config, state) for arg in v.arguments]))
         else:
             value.append(v)
 
